@@ -1,7 +1,7 @@
 SPECIFICATION Spec
 CONSTANTS
   NPaths = 3
-  Contents = {"ClsDoc", "ClsDoc2", "ClsPlain", "ClsField", "GInt", "GStr", "ReqB", "Mod", "Alias", "Enum", "DiagOff", "Undef", "UseFoo", "ClsSub"}
+  Contents = {"ClsDoc", "ClsDoc2", "ClsPlain", "ClsField", "GInt", "GStr", "ReqB", "Mod", "Alias", "Enum", "DiagOff", "Undef", "UseFoo", "ClsSub", "ReqA"}
   Ops = {}
   MaxSteps = 0
   EditDist = 3
